@@ -86,6 +86,7 @@ FamilyProps(fam) ==
       [] fam = "bil" -> {"C20", "C13", "C06", "C08", "C19"}
       [] fam = "spl" -> {"C13", "C06", "C08"}
       [] fam = "out" -> {"C17", "C09"}
+      [] fam = "outc" -> {"C13"}
       [] fam = "err" -> {"C19"}
       [] fam = "errbuf" -> {"C19"}
       [] OTHER -> {}
@@ -189,11 +190,11 @@ CustomBuildViolations(ev, twoD, otherKinds, xb, yb) ==
 
 \* at most two reported conflicts per memo family and event (keeps every family visible)
 MemoViolations(confl, en) ==
-    LET fams == <<"obj", "out", "lin", "bil", "spl", "err", "errbuf">>
+    LET fams == <<"obj", "out", "lin", "bil", "spl", "err", "errbuf", "outc">>
         perFam(f) == LET cs == SeqOfSet({k \in confl : k[1] = f})
                          n == IF Len(cs) > 2 THEN 2 ELSE Len(cs)
                      IN  [i \in 1..n |-> V(FamilyProps(f), "MEMO|" \o f \o "|" \o en, <<cs[i][2]>>)]
-    IN  perFam(fams[1]) \o perFam(fams[2]) \o perFam(fams[3]) \o perFam(fams[4]) \o perFam(fams[5]) \o perFam(fams[6]) \o perFam(fams[7])
+    IN  perFam(fams[1]) \o perFam(fams[2]) \o perFam(fams[3]) \o perFam(fams[4]) \o perFam(fams[5]) \o perFam(fams[6]) \o perFam(fams[7]) \o perFam(fams[8])
 
 ----------------------------------------------------------------------------
 \* Build events
@@ -405,7 +406,11 @@ DoQ1(ev) ==
                     THEN {<<"err", <<ev.id, ev.en, ev.q.s, ev.q.v>>, ev.em>>}
                          \cup (IF isInto THEN {<<"errbuf", <<ev.id, ev.en, ev.q.s, ev.q.v>>, WindowContents(ev.buf)>>} ELSE {})
                     ELSE {}
-        pairs == objPairs \cup famPairs \cup outPairs \cup errPairs
+        \* C13: whether a call is answered depends on the CONTENTS of the axis, the strategy and the query only - not on
+        \* the memory layout or ownership of the axis, the data, the query or the buffer (key without object identity)
+        outcPairs == IF ranged /\ bufOk /\ \A i \in 1..nq : ~IsNaN(qs[i])
+                     THEN {<<"outc", <<o.el, o.xb, sk, o.st.ex, ev.q.v>>, ev.out>>} ELSE {}
+        pairs == objPairs \cup famPairs \cup outPairs \cup errPairs \cup outcPairs
         confl == MemoConflicts(pairs)
         vMemo == MemoViolations(confl, ev.en)
         \* ---- buffer discipline (C14): cells outside the window untouched
@@ -578,7 +583,9 @@ DoQ2(ev) ==
                     THEN {<<"err", <<ev.id, ev.en, ev.q.s, ev.q.v, ev.q2.v>>, ev.em>>}
                          \cup (IF isInto THEN {<<"errbuf", <<ev.id, ev.en, ev.q.s, ev.q.v, ev.q2.v>>, WindowContents(ev.buf)>>} ELSE {})
                     ELSE {}
-        pairs == objPairs \cup famPairs \cup outPairs \cup errPairs
+        outcPairs == IF ranged /\ bufOk /\ sameShape /\ \A i \in 1..nq : ~IsNaN(qxs[i]) /\ ~IsNaN(qys[i])
+                     THEN {<<"outc", <<o.el, o.xb, o.yb, sk, o.st.ex, ev.q.v, ev.q2.v>>, ev.out>>} ELSE {}
+        pairs == objPairs \cup famPairs \cup outPairs \cup errPairs \cup outcPairs
         confl == MemoConflicts(pairs)
         vMemo == MemoViolations(confl, ev.en)
         vBuf == IF isInto /\ ev.out = "Ok" /\ bufOk /\ ~OutsideUntouched(ev.buf)
